@@ -52,10 +52,56 @@ META = {
  "C20-m2": ("a10", "C20", "ResolverError installs an error picker and publishes when the aggregate is not READY", "a resolver error while no connection is READY", ""),
 }
 
+META2 = {
+ "C01-m1": ("b01", "C01", "a BIND completing after its channel was refreshed binds to the SubConn picked earlier (never bound)", "a refresh takeover between BIND pick and completion", ""),
+ "C01-m2": ("b01", "C01", "getReadySubConnRef consults fallbackMap[key] before the home channel's state", "fallback on: BIND K on H, H down, K gets stand-in S, UNBIND K succeeds, BIND K again on another READY channel O; BOUND K then goes to the stale stand-in", "initially missed (needs a 6-step sequence under fallback); the directed macro rebind-after-fallback-unbind, judged by the ordinary rules, now reports it"),
+ "C08-m1": ("b01", "C08", "affinity/fallback re-keying at refresh takeover wrapped in 'if affinityCnt > 0'", "a stand-in with no bound keys of its own refreshed while serving", ""),
+ "C08-m2": ("b01", "C08", "break after the first delete in the broken-stand-in cleanup loop", "two or more keys sharing one stand-in when it leaves READY", ""),
+ "C02-m1": ("b02", "C02", "stream-count increment for RR BIND moved into getSubConnRoundRobin; the ctx.Done() exit forgets it", "a BIND whose context ends while it waits for a non-READY channel", ""),
+ "C02-m2": ("b02", "C02", "regeneratePicker builds the READY list in a scratch slice kept on the balancer", "a pick through a stale picker after a later regeneration", ""),
+ "C09-m1": ("b02", "C09", "RR wait loop condition != Ready became < Ready", "assigned channel in TRANSIENT_FAILURE / Shutdown", ""),
+ "C09-m2": ("b02", "C09", "atomic ticket replaced by gb.rrRefId++ under the shared RLock", "concurrent BIND picks (lost / duplicated tickets)", "initially missed by the C09 check (160 picks per run were too few; the C10 check reported the race); half of the exact-count runs now issue 1 000-12 000 picks from 8-16 goroutines"),
+ "C03-m1": ("b03", "C03", "growth decision compares the picker's READY snapshot length with maxSize", "pool at maxSize, one channel in TRANSIENT_FAILURE, every READY channel at the watermark", ""),
+ "C03-m2": ("b03", "C03", "empty-pool branch of UpdateClientConnState calls addSubConn instead of enforceMinSize", "pool creation failed on the update that delivered the config (empty address list), then an update with addresses", "initially missed (C03 histories never started with an empty address list); they now do in 35% of the cases"),
+ "C20-m1": ("b03", "C20", "address-update loop skips refs that are being refreshed", "a resolver update while a refresh is in flight", ""),
+ "C20-m2": ("b03", "C20", "emptied-pool condition weakened to len(scRefs) < minSize with the early return kept", "a partially created pool, then a resolver update", ""),
+ "C04-m1": ("b04", "C04", "replacement READY sets its recorded state to READY instead of inheriting", "old connection not READY when the replacement becomes READY", ""),
+ "C04-m2": ("b04", "C04", "Shutdown of a non-READY connection returns before the publish step", "the last CONNECTING connection shut down while the others are in TRANSIENT_FAILURE", ""),
+ "C07-m1": ("b04", "C07", "deCallsInc() moved above the 'started before last response' return", "deadline-exceeded calls in flight across a response", ""),
+ "C07-m2": ("b04", "C07", "refreshCnt++ moved into refresh() before NewSubConn; error path only rolls back refreshing", "NewSubConn fails once; the next qualifying call ends between one and two windows after the last response", ""),
+ "C05-m1": ("b05", "C05", "at refresh completion scRefs is updated only if the old SubConn is still in the pool, scStates unconditionally", "old SubConn shut down during the refresh, replacement READY, then a pick (nil ref in the picker)", ""),
+ "C05-m2": ("b05", "C05", "Shutdown handler prunes the ref from scRefList, which can become empty", "pool emptied, factory failing, RR BIND pick on the superseded picker (divide by zero)", ""),
+ "C06-m1": ("b05", "C06", "sigChan := scRef.stateSignal hoisted out of the RR wait loop", "a waiting BIND whose SubConn reports a non-READY state change: busy-spins on the stale closed channel", "initially missed (the waiter still returns correctly); waiting picks must now be observed parked after every operation (C06.waiter-spins)"),
+ "C06-m2": ("b05", "C06", "refresh() unlocks explicitly and forgets the NewSubConn error path", "the factory fails exactly when a refresh is triggered", ""),
+ "C10-m1": ("b06", "C10", "monitoredConn.notify iterates a 'snapshot' of gme.mes (a map reference) after unlocking", "a MultiEndpoint-adding/removing update while a pool state change is in flight", ""),
+ "C10-m2": ("b06", "C10", "atomic.StoreUint32(&scRef.deCalls, 0) became a plain store at refresh completion", "a refresh completing concurrently with a counted deadline-exceeded completion", ""),
+ "C10-m3": ("b06", "C10", "getReadySubConnRef takes RLock but the fallback-creation path writes fallbackMap", "fallback on, keys bound to a non-READY SubConn, picks on two picker generations concurrently", ""),
+ "C10-m4": ("b06", "C10", "me.endpoints[me.future] lookup moved in front of me.Lock() in the switching-delay timer callback", "SwitchingDelay > 0, a scheduled switch, timer firing concurrently with SetEndpoints", ""),
+ "C12-m1": ("b07", "C12", "waitForStream checks the call's context before an already created stream", "successful first SendMsg, then cancel, then RecvMsg/Header", "reported through Header from the start; RecvMsg after cancel is now checked as well"),
+ "C12-m2": ("b07", "C12", "unlock and broadcast deferred until the first underlying SendMsg has returned", "a first send that blocks plus a concurrent receiver", "initially missed; the gate scenario blocking-first-send (fake stream whose first SendMsg blocks) now reports it"),
+ "C19-m1": ("b07", "C19", "'already checksummed' shortcut when the standard encoding starts with the field-2047/fixed32 tag", "a message whose encoding starts with an unknown fixed32 field 2047", ""),
+ "C19-m2": ("b07", "C19", "early return 'if err != nil' became 'if bytes == nil'", "an inner-codec error that arrives together with a non-nil slice (invalid UTF-8, missing required field)", "initially missed (error inputs always came with nil output); the failing inner codec now also returns partial output and an invalid-UTF-8 message is marshalled by the real codec"),
+ "C13-m1": ("b08", "C13", "'switch to t already scheduled' shortcut placed before the immediate-switch check", "current becomes known-unavailable while a delayed switch to the same target is pending", ""),
+ "C13-m2": ("b08", "C13", "switching-delay timer guard e.status != available became == recovering", "switch target outright unavailable when the timer fires", ""),
+ "C14-m1": ("b08", "C14", "'switch already scheduled' marker cleared only when the timer succeeds", "a delayed switch abandoned because the target went down, later the target is available again", ""),
+ "C14-m2": ("b08", "C14", "recovery timer callback looks its endpoint up by id (zero lastChange matches a re-added endpoint)", "endpoint removed and re-added with a leftover timer", ""),
+ "C15-m1": ("b09", "C15", "pickConn ignores whether the context carries a MultiEndpoint name at all", "a non-default MultiEndpoint named \"\" (legal)", "initially missed; the walks now also configure the empty-string name and distinguish 'no name in the context' from it"),
+ "C15-m2": ("b09", "C15", "UpdateMultiEndpoints releases the write lock around dialFunc", "two concurrent updates mentioning the same not-yet-pooled endpoint: two open pools, one orphaned", "initially missed (updates were sequential); a quarter of the updates are now issued twice concurrently with slowed-down dials"),
+ "C16-m1": ("b09", "C16", "the pending delayed switch stores the target endpoint object instead of its id (multiendpoint.go)", "switching delay > 0: an accepted update adds a higher-priority endpoint, a second accepted update removes it inside the delay; RPCs then nil-dereference", "initially missed by the C16 check (gme walks used no switching delay; the C13 and C14 checks reported it at once); the directed scenario delayed-switch-target-removed now reports it under C16"),
+ "C16-m2": ("b09", "C16", "SetEndpoints for existing MultiEndpoints moved into the validation loop ahead of the dials", "an update rejected later by a dial failure", ""),
+ "C11-m1": ("b10", "C11", "fieldByName caches field indices keyed by Type.String()+name", "distinct message types printing the same name (function-local types)", "initially missed (generated types are unnamed); hand-written same-named local types with different layouts are now probed in random order"),
+ "C11-m2": ("b10", "C11", "strings.Title replaced by ToUpper(name[:1])+name[1:]", "an empty path segment reaching a struct (panic)", ""),
+ "C17-m1": ("b10", "C17", "initializeConfig clones the supplied ApiConfig only when a default has to be filled in", "all three sizes non-zero, then the caller edits its object", ""),
+ "C17-m2": ("b10", "C17", "config branch also taken when the pool is empty (gb.cfg == nil || len(scRefs) == 0)", "a later resolver update that finds the pool empty replaces / resets the config", "initially missed; a fifth of the pool observations now empty the pool and send a second update with another config first"),
+ "C18-m1": ("b10", "C18", "backoff rewritten with integer arithmetic (d += (d+1)/2) that overflows", "max above ~2/3 of MaxInt64 ns", ""),
+ "C18-m2": ("b10", "C18", "parseT4T7Latency uses fmt.Sscanf(prefix+\"%d\")", "a first entry that starts with digits but is malformed (12abc, 12.5, 1e3)", ""),
+}
+
 def main():
     kept, skipped = [], []
-    for mid, (agent, prop, change, needs, note) in sorted(META.items()):
-        d = os.path.join(SRC, agent, mid)
+    items = [("r1-" + k, k, v) for k, v in META.items()] + [("r2-" + k, k, v) for k, v in META2.items()]
+    for mid, dname, (agent, prop, change, needs, note) in sorted(items):
+        d = os.path.join(SRC, agent, dname)
         conf = os.path.join(d, "confirm.txt")
         res = os.path.join(d, "vcheck_result.json")
         if not (os.path.exists(conf) and os.path.exists(res)):
